@@ -54,6 +54,7 @@ def optimizer_capabilities() -> dict:
             "linear_only": bool(info.for_linear_problems) or library in COEFFICIENT_SOLVERS,
             "grad": bool(info.require_gradient),
             "multi": bool(info.handle_multiobjective),
+            "kkt": "kkt_tol_abs" in info.Settings.model_fields,
             "composite": name in COMPOSITES,
             "global": library in GLOBAL_LIBRARIES,
         }
@@ -195,7 +196,8 @@ def _capped_linear_function(counted: Counted):
 class HarnessProblem:
     """The gemseo OptimizationProblem of a problem spec, with counting callables and a numpy reference.
 
-    spec = {"space", "x0" (point spec or None), "obj", "cons": [{"type", "spec"}], "maximize", "linear",
+    spec = {"space", "x0" (point spec or None), "obj", "cons": [{"type", "spec"}], "obs": [spec] (optional observables),
+            "stop_if_nan" (optional, False = NaN goes to the algorithm), "maximize", "linear",
             "feasible_x0", "nan": rule|None, "fail": rule|None, "diff"}
     optional "jac_nan": rule (the Jacobian of that function is NaN there, its value finite)
     rule = {"fn": index, "kind": "kth", "k": int} | {"fn": index, "kind": "half", "comp", "level", "side"}
@@ -209,12 +211,14 @@ class HarnessProblem:
         self.space = SpaceModel(spec["space"])
         n_in = self.space.dim
         self.state = {"runaway": False, "nan_returned": 0, "raised": 0}
+        self.normalized = False  # set by the caller when the drivers run with normalize_design_space=True
         self.design_space = build_design_space(spec["space"])
         self.x0 = None
         if spec.get("x0") is not None:
             _, self.x0 = self.space.realise(spec["x0"], allow_frac=False)
             self.design_space.set_current_value(self.x0.astype(int) if self.space.common_dtype_kind() == "i" else self.x0)
 
+        obs_specs = [dict(o) for o in spec.get("obs") or []]
         f_specs = [dict(spec["obj"])] + [dict(c["spec"]) for c in spec["cons"]]
         if spec.get("feasible_x0") and self.x0 is not None:
             # shift the constants so that every constraint holds at x0 with a margin (g(x0) = -0.5, h(x0) = 0)
@@ -223,7 +227,7 @@ class HarnessProblem:
                 v = base.value(self.x0)
                 target = 0.0 if con["type"] == "eq" else -0.5
                 fs["c"] = [float(c - vk + target) for c, vk in zip(fs["c"], v)]
-        self.polys = [PolyFunction(fs, n_in) for fs in f_specs]
+        self.polys = [PolyFunction(fs, n_in) for fs in [*f_specs, *obs_specs]]
         self.counted = [Counted(p, self.space, cap, self.state) for p in self.polys]
         for key, attr in (("nan", "nan_rule"), ("fail", "raise_rule"), ("jac_nan", "jac_nan_rule")):
             rule = spec.get(key)
@@ -240,6 +244,10 @@ class HarnessProblem:
         problem.objective = functions[0]
         for con, fn in zip(spec["cons"], functions[1:]):
             problem.add_constraint(fn, constraint_type=con["type"])
+        for fn in functions[1 + len(spec["cons"]):]:
+            problem.add_observable(fn)  # also a new-iteration observable (default)
+        if spec.get("stop_if_nan") is False:
+            problem.stop_if_nan = False
         if spec.get("maximize"):
             problem.minimize_objective = False
         diff = spec.get("diff", "user")
@@ -248,6 +256,7 @@ class HarnessProblem:
         self.problem = problem
         self.obj_name = problem.objective.name  # standardised name ("-f" when maximising)
         self.con_names = [c.name for c in problem.constraints]
+        self.obs_names = [o.name for o in problem.observables]
 
     # ----- records
     def mark(self) -> list:
@@ -255,9 +264,19 @@ class HarnessProblem:
         return [len(c.calls) for c in self.counted]
 
     def distinct_points(self, marks=None) -> dict:
+        """Distinct points at which the user's functions were called by a driver.
+
+        MDOLinearFunction.normalize evaluates the user's linear function once at the lower bounds (0 where a
+        component is not normalised) when the problem is preprocessed for normalised inputs (``self.normalized``, set
+        by the caller): that point is not a driver evaluation.
+        """
+        shift_key = point_key(np.where(self.space.norm_mask, self.space.lb, 0.0))
         out = {}
         for i, counted in enumerate(self.counted):
-            out.update(counted.distinct_points(0 if marks is None else marks[i]))
+            pts = counted.distinct_points(0 if marks is None else marks[i])
+            if counted.poly.is_mdo_linear and self.normalized:
+                pts.pop(shift_key, None)
+            out.update(pts)
         return out
 
     def db_keys(self) -> list:
@@ -340,12 +359,16 @@ def opt_cases(draw, caps: dict, names: list, second_names: list | None = None):
     cap = caps[algo]
     linear = cap["linear_only"] or draw(st.integers(0, 7)) == 0
     multi = algo == "MNBI"
-    stop = draw(st.sampled_from(["budget", "budget", "budget", "ftol", "xtol", "time", "nan", "nan"]))
+    stop = draw(st.sampled_from(["budget"] * 6 + ["ftol", "xtol", "time", "nan", "nan", "nan_grad", "nan_grad", "kkt"]))
     if cap["linear_only"] and stop == "ftol":
+        stop = "budget"
+    if stop == "nan_grad" and not (cap["grad"] and not cap["composite"]):
+        stop = "nan"  # a NaN gradient needs an algorithm that asks for gradients
+    if stop == "kkt" and not cap["kkt"]:
         stop = "budget"
     diff = "user"
     # approximated derivatives only matter to (and are only generated for) algorithms that ask for gradients
-    if not linear and not cap["composite"] and cap["grad"] and draw(st.integers(0, 2)) == 0:
+    if not linear and not cap["composite"] and cap["grad"] and stop != "nan_grad" and draw(st.integers(0, 2)) == 0:
         diff = draw(st.sampled_from(["finite_differences", "finite_differences", "centered_differences", "complex_step"]))
     use_int = cap["int"] and not cap["composite"] and diff == "user" and draw(st.booleans())
     space = draw(bounded_spaces(max_dim=3 if (cap["global"] or cap["composite"]) else 4, min_dim=MIN_DIMENSION.get(algo, 1),
@@ -354,8 +377,10 @@ def opt_cases(draw, caps: dict, names: list, second_names: list | None = None):
     kinds = ("mdo_linear",) if linear else ("quad", "quad", "affine")
     constant = stop == "ftol" and draw(st.booleans())  # ftol fires on a constant objective, or on any with a huge ftol_abs
     obj = _scalarise(draw(function_specs(n_in, "f", kinds=kinds, max_dim=2 if multi else 1)), constant=constant)
-    if cap["composite"]:
-        obj["grad_1d"] = True  # LagrangeMultipliers (Augmented_Lagrangian_order_1) needs a 1-D objective gradient
+    if cap["composite"] or stop == "kkt":
+        obj["grad_1d"] = True  # LagrangeMultipliers (Augmented_Lagrangian_order_1, KKT criterion) needs a 1-D objective gradient
+    if stop == "kkt":
+        obj["scalar_as"] = "float"  # and a float objective value (a size-1 array ends in a (1, 1) right-hand side of nnls)
     if multi:
         obj["dim"] = 2
         while len(obj["c"]) < 2:  # a second objective component when Hypothesis drew a scalar
@@ -385,20 +410,32 @@ def opt_cases(draw, caps: dict, names: list, second_names: list | None = None):
     n_max = 10 if (cap["global"] or cap["composite"]) else 25
     if algo in SLOW_AFTER_INITIALISATION:
         n_max = 2
-    n_iter = draw(st.one_of(st.integers(1, min(6, n_max)), st.integers(1, n_max)))
+    n_iter = draw(st.one_of(st.integers(1, min(3, n_max)), st.integers(min(2, n_max), min(6, n_max)), st.integers(1, n_max)))
     nan = None
     if stop == "nan" and not linear:
         nan = _rule(draw, 1 + n_cons, max(1, min(n_iter, 6)))
+    jac_nan = None
+    if stop == "nan_grad" and not linear:
+        # the gradient (finite values) becomes NaN while problem.stop_if_nan is False: the algorithm itself receives the
+        # NaN and may propose a NaN design vector (DesvarIsNan must then end the run with a result)
+        jac_nan = _rule(draw, 1, max(1, min(n_iter, 4)))
+    obs = []
+    if not multi and draw(st.integers(0, 3)) == 0:
+        # the observables of a problem given to a linear-only solver must be linear too (OptimizationProblem.is_linear)
+        fs = draw(function_specs(n_in, "o1", kinds=("mdo_linear",) if linear else ("quad", "affine"), max_dim=2))
+        fs["jac"] = "dense"
+        obs.append(fs)
     problem = {
         "space": space, "x0": [v for var in space["vars"] for v in var["value"]], "obj": obj, "cons": cons,
         "maximize": (not multi) and draw(st.integers(0, 4)) == 0, "linear": linear,
         "feasible_x0": bool(cap["linear_only"] or draw(st.integers(0, 3)) > 0), "nan": nan, "fail": None, "diff": diff,
+        "jac_nan": jac_nan, "obs": obs, "stop_if_nan": not (stop == "nan_grad" and jac_nan is not None),
     }
     settings = {
         "normalize_design_space": draw(st.booleans()) and algo != "MNBI",
         "use_database": draw(st.integers(0, 7)) > 0 or cap["composite"] or cap["linear_only"] or cap["global"],
         "round_ints": draw(st.integers(0, 3)) > 0,
-        "store_jacobian": draw(st.integers(0, 4)) > 0,
+        "store_jacobian": draw(st.integers(0, 2)) > 0,
         "eq_tolerance": draw(st.sampled_from([1e-2, 1e-6])),
         "ineq_tolerance": draw(st.sampled_from([1e-4, 1e-2])),
     }
@@ -408,6 +445,12 @@ def opt_cases(draw, caps: dict, names: list, second_names: list | None = None):
         settings["xtol_abs"] = 1e9
     elif stop == "time":
         settings["max_time"] = 1e-9
+    elif stop == "kkt":
+        # a tolerance that fires as soon as all the gradients of a point are recorded, or one that rarely does
+        settings[draw(st.sampled_from(["kkt_tol_abs", "kkt_tol_rel"]))] = draw(st.sampled_from([1e9, 1e9, 1e-3]))
+        settings["store_jacobian"] = True  # documented: "KKT options can only be set with store_jacobian=True"
+    if draw(st.integers(0, 7)) == 3:
+        settings["scaling_threshold"] = draw(st.sampled_from([0.1, 1.0, 100.0]))
     seed = draw(st.integers(0, 2**16))
     extra = {}
     if algo == "MultiStart":
@@ -534,10 +577,15 @@ def doe_cases(draw, caps: dict, names: list):
     fail = _rule(draw, 1 + n_cons, 6, n_processes > 1) if draw(st.integers(0, 1)) == 0 else None
     nan = _rule(draw, 1 + n_cons, 6, n_processes > 1) if draw(st.integers(0, 3)) == 0 else None
     eval_jac = draw(st.integers(0, 3)) == 0
+    obs = []
+    if draw(st.integers(0, 3)) == 0:
+        fs = draw(function_specs(n_in, "o1", kinds=("quad", "affine"), max_dim=2))
+        fs["jac"] = "dense"
+        obs.append(fs)
     # a NaN Jacobian with finite values (a DOE sets stop_if_nan=False: it must be recorded and the DOE must go on)
     jac_nan = _rule(draw, 1 + n_cons, 6, n_processes > 1) if eval_jac and draw(st.integers(0, 2)) > 0 else None
     problem = {"space": space, "x0": None, "obj": obj, "cons": cons, "maximize": draw(st.integers(0, 5)) == 0, "linear": False,
-               "feasible_x0": False, "nan": nan, "fail": fail, "jac_nan": jac_nan, "diff": "user"}
+               "feasible_x0": False, "nan": nan, "fail": fail, "jac_nan": jac_nan, "obs": obs, "diff": "user"}
     for var in space["vars"]:
         if draw(st.booleans()):
             var["value"] = None  # a DOE does not need a current value
@@ -565,3 +613,53 @@ def custom_samples(space: SpaceModel, rows) -> np.ndarray:
             else:
                 out[r, i] = lb + (int(level) / 8.0) * (ub - lb)
     return out
+
+
+# --------------------------------------------------------------------------- strategies: histories
+@st.composite
+def instance_cases(draw, opt_caps: dict, opt_names: list, doe_caps: dict, doe_names: list):
+    """One library *instance* executed on 2-3 different problems (some with observables)."""
+    if draw(st.integers(0, 2)) == 0:
+        algo = draw(st.sampled_from(doe_names))
+        steps = [draw(doe_cases(doe_caps, [algo])) for _ in range(draw(st.integers(2, 3)))]
+        kind = "doe"
+    else:
+        algo = draw(st.sampled_from(opt_names))
+        steps = [draw(opt_cases(opt_caps, [algo])) for _ in range(draw(st.integers(2, 3)))]
+        kind = "opt"
+    for step in steps:
+        step["second"] = None
+    # observables on some problems, never on all of them by construction of the first two steps
+    n_in = space_dimension(steps[0]["problem"]["space"])
+    if not steps[0]["problem"].get("obs") and int(steps[0]["problem"]["obj"]["dim"]) == 1:
+        fs = draw(function_specs(n_in, "o1", kinds=("mdo_linear",) if steps[0]["problem"]["linear"] else ("quad", "affine"), max_dim=2))
+        fs["jac"] = "dense"
+        steps[0]["problem"]["obs"] = [fs]
+    if draw(st.booleans()):
+        steps[1]["problem"]["obs"] = []
+    return {"kind": kind, "algo": algo, "steps": steps}
+
+
+SIMPLE_DOES = ["CustomDOE", "DiagonalDOE", "LHS", "OT_MONTE_CARLO", "PYDOE_FULLFACT", "Halton"]
+
+
+@st.composite
+def mixed_cases(draw, opt_caps: dict, opt_names: list, doe_caps: dict):
+    """An optimisation (possibly ended by an exception of a user function) followed by a DOE on the same problem."""
+    opt = draw(opt_cases(opt_caps, opt_names))
+    opt["second"] = None
+    opt["settings"]["use_database"] = True
+    opt["settings"]["normalize_design_space"] = False  # the DOE keeps the preprocessing of the first run
+    opt["settings"]["store_jacobian"] = True
+    problem = opt["problem"]
+    n_funcs = 1 + len(problem["cons"]) + len(problem.get("obs") or [])
+    if not problem["linear"] and draw(st.integers(0, 2)) == 0:
+        # a user function that raises: execute lets the exception through, the next driver must not be disturbed
+        problem["fail"] = _rule(draw, n_funcs, 4)
+    algo = draw(st.sampled_from([n for n in SIMPLE_DOES if n in doe_caps]))
+    seed = draw(st.integers(1, 2**16))
+    doe = {"algo": algo, "settings": doe_settings(draw, algo, doe_caps[algo], problem["space"], seed), "seed": seed,
+           # approximated derivatives call the functions at probe points: no Jacobians in the DOE then
+           "eval_jac": draw(st.booleans()) and problem["diff"] == "user",
+           "normalize_design_space": False, "use_database": True, "n_processes": 1, "second": None}
+    return {"opt": opt, "doe": doe}
